@@ -233,12 +233,23 @@ def run(rep):
 
     # ---- R17.c -----------------------------------------------------------
     rep.rule('R17.c', 'each Response label is dominated by its classification test; order str->bytes->Sized')
-    labelled = []
+    labelled = []   # (statement at which the label is decided, the Response(...) call, mimetype)
     for r in returns_of(rr):
         v = r.value
         if isinstance(v, ast.Call) and call_tail(v) == 'Response':
             mt = kwarg(v, 'mimetype')
-            labelled.append((r, v, mt.value if isinstance(mt, ast.Constant) else None))
+            if isinstance(mt, ast.Constant):
+                labelled.append((r, v, mt.value))
+            elif isinstance(mt, ast.Name):
+                # label chosen earlier:  mimetype = "text/html" ... return Response(context, mimetype=mimetype)
+                asg = [s for s in stmts_of(rr.node) if isinstance(s, ast.Assign) and norm(s.targets[0]) == mt.id]
+                if asg and all(isinstance(s.value, ast.Constant) and isinstance(s.value.value, str) for s in asg):
+                    for s in asg:
+                        labelled.append((s, v, s.value.value))
+                else:
+                    labelled.append((r, v, None))
+            else:
+                labelled.append((r, v, None))
     is_gj = lambda t: isinstance(t, ast.Call) and call_tail(t) == '_guess_json'
     is_html = lambda t: isinstance(t, ast.Compare) and isinstance(t.ops[0], ast.In) and \
         isinstance(t.left, ast.Constant) and isinstance(t.left.value, bytes) and b'html' in t.left.value.lower()
@@ -272,10 +283,10 @@ def run(rep):
         rep.check('R17.c', fkey(rr, 'label %s %s' % (mt, 'bytes' if first == ctx_param else 'other')), ok,
                   (why + ' -- holds (%s)' % '; '.join(cond_texts(cs))) if ok else
                   (why + '; conditions at this return: %s' % '; '.join(cond_texts(cs))), simple, r)
-    mts = sorted(set((mt, norm(v.args[0]) == ctx_param if v.args else False) for r, v, mt in labelled))
+    mts = set((mt, norm(v.args[0]) == ctx_param if v.args else False) for r, v, mt in labelled)
     need = {('application/json', True), ('text/html', True), ('text/plain', True), ('text/plain', False)}
     rep.check('R17.c', fkey(rr, 'labels'), need <= set(mts),
-              'all four labelled returns present' if need <= set(mts) else 'missing labelled returns: %r' % sorted(need - set(mts)),
+              'all four labelled returns present' if need <= set(mts) else 'missing labelled returns: %r' % sorted(need - set(mts), key=str),
               simple, rr.node)
     # str is encoded before the bytes classification
     enc = [s for s in stmts_of(rr.node) if isinstance(s, ast.Assign) and len(s.targets) == 1 and norm(s.targets[0]) == ctx_param
@@ -342,6 +353,21 @@ def run(rep):
     falls = cfg_de.exit in cfg_de.reach([cfg_de.entry], avoid=set(cfg_de.nodes_of_all(returns_of(de))), normal_only=True)
     rep.check('R17.d', fkey(de, 'total'), not falls, 'default() returns or raises on every path' if not falls else
               'default() can fall off the end and return None', simple, de.node)
+    # conversions of the object that can fail on its *content* (decoding, parsing) must be attempts, like the
+    # dict()/list() attempts next to them: an unguarded one turns "degrade to repr" into an exception
+    from .common import protected_by
+    n_att = 0
+    for c in walk_body(de.node):
+        if isinstance(c, ast.Call) and (call_tail(c) in ('decode', 'loads', 'fromhex', 'unhexlify', 'b64decode') or
+                                        (isinstance(c.func, ast.Name) and c.func.id in ('dict', 'list', 'int', 'float', 'tuple', 'set'))):
+            n_att += 1
+            h = protected_by(de, c, 'ValueError')
+            ok = h is not None and not any(isinstance(x, ast.Raise) for x in ast.walk(h))
+            rep.check('R17.d', fkey(de, c), ok, 'conversion attempt %s is guarded (falls through to the next strategy)' % short(c, 40) if ok else
+                      'conversion %s in ClasticJSONEncoder.default is unguarded: a value it cannot convert (e.g. non-UTF-8 bytes) raises '
+                      'instead of degrading' % short(c, 60), simple, c)
+    if n_att < 2:
+        raise AnalysisError('ClasticJSONEncoder.default: conversion attempts not found')
     # construction sites
     def const_kw(call, name):
         v = kwarg(call, name)
@@ -413,8 +439,9 @@ def run(rep):
     except Exception as e:
         raise AnalysisError('cannot fold BasicRender format tables: %s' % e)
     branch_mimes = set()
+    mime_vars = set(norm(s.targets[0]) for s in stmts_of(sr.node) if isinstance(s, ast.Assign) and '_format_mime_map' in norm(s.value))
     for n in walk_body(sr.node):
-        if isinstance(n, ast.Compare) and norm(n.left) == 'resp_mime' and isinstance(n.ops[0], ast.Eq) \
+        if isinstance(n, ast.Compare) and norm(n.left) in mime_vars and isinstance(n.ops[0], ast.Eq) \
                 and isinstance(n.comparators[0], ast.Constant):
             branch_mimes.add(n.comparators[0].value)
     for fmt, mime in sorted(fmm.items()):
